@@ -256,7 +256,7 @@ Definition g_plain_ge2 (c : gcircuit) : bool :=
    units 0..U-1 in this order; otherwise: a (1,) array where the edge equation expects a scalar (ValueError at the first call), an index out
    of range, or slots that are never written.  Not modelled (the adaptive solvers are outside this model); the guard delimits the class for
    the adaptive correspondence stream.  fixed_dde_slots: false = the code as it is (fixes/proposed_fix_C11_mixed_adaptive.diff). *)
-Definition fixed_dde_slots : bool := true.
+Definition fixed_dde_slots : bool := false.
 Definition same_class (a b : node) : bool := Bool.eqb (nsrc a) (nsrc b) && Nat.eqb (ncls a) (ncls b).
 Definition unit_of (c : gcircuit) (i : nat) : nat := length (filter (same_class (gnode c i)) (firstn i (gnodes c))).
 Fixpoint list_nat_eqb (a b : list nat) : bool :=
